@@ -587,6 +587,12 @@ def check_nary_forms(ctx):
                 isinstance(r_, ast.Return) and isinstance(r_.value, ast.Call) and call_name(r_.value) == 'NaryExpr' for r_ in ast.walk(f_.node)):
             nary = f_
     if nary is None:
+        # run on its own (included by another property): the installer is recognised by content
+        cands_ = [f_ for f_ in repo.functions.values() if f_.module == 'deferred' and f_.qual.count('.') == 1 and any(
+            isinstance(r_, ast.Return) and isinstance(r_.value, ast.Call) and call_name(r_.value) == 'NaryExpr' for r_ in ast.walk(f_.node))]
+        if len(cands_) == 1:
+            nary = cands_[0]
+    if nary is None:
         ctx.undecided(rule, ('bisturi/deferred.py', INSTALLER), 'n-ary constructor', 'not found')
         return
     a = nary.node.args
